@@ -211,10 +211,10 @@ def reader_names_field(report):
 
 def run(tier, report):
     core.import_repo()
-    result = core.tlc("MCFields", "Fields_quick.cfg")
+    result = core.tlc("MCFields", "Fields_quick.cfg" if tier == "quick" else "Fields_deep.cfg", timeout=7000)
     core.require_coverage(result, ["GuardChars", "Strip", "GuardEmpty", "GuardLength", "Value"], "Fields")
-    report.add_tlc("Fields: 4 formats x empty flag x 5 length declarations (+2 fixed widths) x allowed characters x cells <= 4 x hook verdict",
-                   result)
+    report.add_tlc("Fields: 4 formats x empty flag x %s x 3 shapes of the allowed-characters range x cells <= %d x hook verdict" % (
+        ("5 length declarations (+2 fixed widths)", 4) if tier == "quick" else ("11 length declarations (+4 fixed widths)", 6)), result)
     pinned = core.tlc("MCFields", "Fields_pinned.cfg", expect_violation=True, coverage=False)
     if pinned.violated != "GuardsHold":
         raise core.MachineryError("StripBeforeEmptyGuard = FALSE (D5) gave no counterexample")
